@@ -70,6 +70,7 @@ fn main() {
     "c01" => props::c01::run(&cfg),
     "c03" => props::c03::run(&cfg),
     "c19" => props::c19::run(&cfg),
+    "c05" => props::c05::run(&cfg),
     "c06" => props::c06::run(&cfg),
     "c13" => props::c13::run(&cfg),
     "c20" => props::c20::run(&cfg),
